@@ -329,7 +329,7 @@ def symm_st(draw, sites, modes=("default", "ignore", "custom"), kinds=("N", "Sz"
 @st.composite
 def model_st(draw, cplx=None, max_modes=6, max_sites=4, beta_lo=0.1, beta_hi=200.0, symm_modes=("default", "ignore", "custom"),
              preset_share=0.5, spins=(1, 2, 3), orbitals=(1, 2, 3), max_pieces=6, raw_kinds=None, presets=None,
-             order_spins=(0,), min_sites=1, symm_kinds=("N", "Sz", "site", "orbital", "linear", "single")):
+             order_spins=(0, 0, 1), min_sites=1, symm_kinds=("N", "Sz", "site", "orbital", "linear", "single")):
     if cplx is None:
         cplx = draw(st.booleans())
     sites = draw(sites_st(max_modes=max_modes, max_sites=max_sites, spins=spins, orbitals=orbitals, min_sites=min_sites))
